@@ -84,6 +84,13 @@ CORPUS = {
         Q_RENAME_WEIGHT, Q_ERRMSG, Q_COMPOUND_ASSIGN,
     ],
     'C02': [
+        ('commitment-absorption-stops-at-the-first-failure', 'fire', [(TR, '''        for item in &statement.commitments_compressed {
+            transcript.append_point(b"Ci", item);
+        }''', '''        statement
+            .commitments_compressed
+            .iter()
+            .try_for_each(|item| transcript.validate_and_append_point(b"Ci", item))
+            .ok();''')], 'R-C02-10'),
         ('early-accept-zero-rounds', 'fire', [(RP, '            // Check for an overflow from the number of rounds', '            if rounds == 0 && statements.len() == 1 { return Ok(masks); }\n            // Check for an overflow from the number of rounds')], 'R-C02-1'),
         ('radix-three', 'fire', [(RP, '''        let two = Scalar::from(2u8);
         let two_n_minus_one''', '''        let two = Scalar::from(3u8);
@@ -141,6 +148,16 @@ CORPUS = {
         Q_REORDER_GUARDS, Q_ERRMSG, Q_RENAME_WEIGHT,
     ],
     'C04': [
+        ('points-absorbed-modulo-the-group-order', 'fire', [('src/protocols/transcript_protocol.rs', '''    fn append_point<P: FixedBytesRepr>(&mut self, label: &'static [u8], point: &P) {
+        self.append_message(label, point.as_fixed_bytes());''', '''    fn append_point<P: FixedBytesRepr>(&mut self, label: &'static [u8], point: &P) {
+        self.append_message(label, curve25519_dalek::scalar::Scalar::from_bytes_mod_order(*point.as_fixed_bytes()).as_bytes());''')], 'R-C04-1'),
+        ('commitment-absorption-stops-at-the-first-failure', 'fire', [(TR, '''        for item in &statement.commitments_compressed {
+            transcript.append_point(b"Ci", item);
+        }''', '''        statement
+            .commitments_compressed
+            .iter()
+            .try_for_each(|item| transcript.validate_and_append_point(b"Ci", item))
+            .ok();''')], 'R-C04-1'),
         ('skip-first-commitment', 'fire', [(TR, '        for item in &statement.commitments_compressed {', '        for item in statement.commitments_compressed.iter().skip(1) {')], 'R-C04-1'),
         ('drop-bit-length', 'fire', [(TR, '        transcript.append_u64(b"N", bit_length as u64);', '')], 'R-C04-1'),
         ('promise-constant', 'fire', [(TR, '                transcript.append_u64(b"vi - minimum_value", *minimum_value);', '                transcript.append_u64(b"vi - minimum_value", 0);')], 'R-C04-1'),
@@ -151,6 +168,9 @@ CORPUS = {
         Q_EXTRACT_PROMISE_LOOP, Q_FOR_EACH,
     ],
     'C05': [
+        ('verifier-absorbs-a-recompressed-H', 'fire', [('src/range_parameters.rs', '''    pub fn h_base_compressed(&self) -> P::Compressed {
+        self.pc_gens.h_base_compressed()''', '''    pub fn h_base_compressed(&self) -> P::Compressed {
+        self.h_base().compress()''')], 'R-C05-1'),
         ('ignore-d1-tail', 'fire', [(RP, '            for (g_base_scalar, d1) in g_base_scalars.iter_mut().zip(d1.iter()) {', '            for (g_base_scalar, d1) in g_base_scalars.iter_mut().zip(d1.iter()).take(1) {')], 'R-C05-1'),
         ('ignore-last-commitment', 'fire', [(RP, '            dynamic_points.extend(commitments);', '            let nc = commitments.len(); dynamic_points.extend(commitments.into_iter().take(nc - 1)); dynamic_points.push(P::identity());')], 'R-C05-1'),
         Q_RENAME_WEIGHT, Q_ERRMSG,
@@ -166,6 +186,29 @@ CORPUS = {
         Q_ERRMSG, Q_ZEROIZING_PUBLIC,
     ],
     'C07': [
+        ('statement-clone_from-keeps-the-old-promises', 'fire', [('src/range_statement.rs', '''#[derive(Clone)]
+pub struct RangeStatement<P: Compressable + Precomputable> {''', '''impl<P: Compressable + Precomputable + Clone> Clone for RangeStatement<P>
+where P::Compressed: Clone
+{
+    fn clone(&self) -> Self {
+        Self {
+            generators: self.generators.clone(),
+            commitments: self.commitments.clone(),
+            commitments_compressed: self.commitments_compressed.clone(),
+            minimum_value_promises: self.minimum_value_promises.clone(),
+            seed_nonce: self.seed_nonce,
+        }
+    }
+
+    fn clone_from(&mut self, source: &Self) {
+        self.generators.clone_from(&source.generators);
+        self.commitments.clone_from(&source.commitments);
+        self.commitments_compressed.clone_from(&source.commitments_compressed);
+        self.seed_nonce = source.seed_nonce;
+    }
+}
+
+pub struct RangeStatement<P: Compressable + Precomputable> {''')], 'R-C07-5'),
         ('promise-fit-over-first-statement-only', 'fire', [(RP, '            for value in Iterator::flatten(statement.minimum_value_promises.iter()) {', '            for value in Iterator::flatten(first_statement.minimum_value_promises.iter()) {')], 'R-C07-4'),
         ('promise-on-wrong-weight', 'fire', [(RP, '                    h_base_scalar -= weighted * Scalar::from(minimum_value);', '                    h_base_scalar -= weight * Scalar::from(minimum_value);')], 'R-C07-2'),
         ('range-guard-from-second-statement', 'fire', [(RP, '''        for (i, statement) in statements.iter().enumerate() {
@@ -242,6 +285,10 @@ CORPUS = {
         Q_ERRMSG, Q_ZEROIZING_PUBLIC,
     ],
     'C14': [
+        ('stored-witness-bytes-dropped-under-a-seed', 'fire', [(TR, '''        let rng = Self::build_rng(transcript, bytes.as_ref(), external_rng);
+''', '''        let rng = Self::build_rng(transcript, bytes.as_ref(), external_rng);
+        let bytes = bytes.filter(|_| statement.seed_nonce.is_none());
+''')], 'R-C14-2'),
         ('no-witness-rekey', 'fire', [(TR, '                .rekey_with_witness_bytes("witness".as_bytes(), bytes)\n', '')], 'R-C14'),
         ('witness-bytes-first-blinding-only', 'fire', [(TR, '                for r in &opening.r {', '                for r in opening.r.iter().take(1) {')], 'R-C14-2'),
         ('no-rebuild-after-A', 'fire', [(TR, '''        self.transcript.validate_and_append_point(b"A", a)?;
@@ -318,6 +365,20 @@ CORPUS = {
         Q_EXTRACT_PROMISE_LOOP, Q_ERRMSG, Q_STD_LE_BYTES,
     ],
     'C20': [
+        ('opening-clone_from-reuses-the-blinding-buffer', 'fire', [('src/commitment_opening.rs', '''#[derive(Clone, Zeroize, ZeroizeOnDrop)]
+pub struct CommitmentOpening {''', '''impl Clone for CommitmentOpening {
+    fn clone(&self) -> Self {
+        Self { v: self.v, r: self.r.clone() }
+    }
+
+    fn clone_from(&mut self, source: &Self) {
+        self.v = source.v;
+        self.r.clone_from(&source.r);
+    }
+}
+
+#[derive(Zeroize, ZeroizeOnDrop)]
+pub struct CommitmentOpening {''')], 'R-C20-3'),
         ('opening-shrinks-the-callers-vector', 'fire', [('src/commitment_opening.rs', '    pub fn new(v: u64, r: Vec<Scalar>) -> Self {', '    pub fn new(v: u64, mut r: Vec<Scalar>) -> Self {\n        r.shrink_to_fit();')], 'R-C20-3'),
         ('seed-copy-in-temporary-vec', 'fire', [(GEN, 'key.extend_from_slice(seed_nonce.as_bytes()); // Fixed length encoding', 'key.append(&mut seed_nonce.to_bytes().to_vec()); // Fixed length encoding')], 'R-C20-2'),
         ('plain-vec-for-bits', 'fire', [(RP, 'let mut a_li = Zeroizing::new(Vec::with_capacity(full_length));', 'let mut a_li = Vec::with_capacity(full_length);'),
